@@ -14,7 +14,14 @@ def trace(scale_q=1, scale_t=8, **kw):
 MC_COMPACT = dict(module="MC_Compact", cfg="MC_Compact.cfg", cfg_thorough="MC_Compact_thorough.cfg", workers=8)
 GEN_COMPACT = dict(module="Gen_Compact", cfg="Gen_Compact.cfg", cfg_thorough="Gen_Compact_thorough.cfg")
 
+MC_APPEND = dict(module="MC_Append", cfg="MC_Append.cfg", workers=4)
+MC_CONTAINERS = dict(module="MC_Containers", cfg="MC_Containers.cfg", cfg_thorough="MC_Containers_thorough.cfg", workers=6)
+
 PROPS = {
+    "C06": dict(level="model_checking", mc=[MC_CONTAINERS], steps=[trace(1, 8)]),
+    "C07": dict(level="model_checking", mc=[MC_FORMAT], steps=[trace(1, 4)]),
+    "C15": dict(level="model_checking", mc=[MC_APPEND], steps=[trace(1, 6)]),
+    "C16": dict(level="model_checking", mc=[MC_FORMAT], steps=[trace(1, 10)]),
     "C04": dict(level="model_checking", mc=[MC_COMPACT], steps=[
         dict(kind="gen_vectors", mc=GEN_COMPACT, out="cvec.ndjson"),
         trace(1, 1, tag="vec", args=["--part", "vec"], vectors="cvec.ndjson"),
@@ -29,6 +36,7 @@ PROPS = {
     "C08": dict(level="model_checking", mc=[MC_FORMAT], steps=[trace(1, 2)]),
     "C11": dict(level="model_checking", mc=[MC_FORMAT], steps=[trace(1, 6)]),
     "C12": dict(level="model_checking", mc=[MC_FORMAT], steps=[trace(1, 4)]),
+    "C13": dict(level="model_checking", mc=[MC_FORMAT], steps=[trace(1, 10)]),
     "C14": dict(level="model_checking", mc=[MC_FORMAT], steps=[trace(2, 12)]),
     "C18": dict(level="model_checking", mc=[MC_FORMAT], steps=[trace(2, 12)]),
     "C19": dict(level="model_checking", mc=[MC_FORMAT], steps=[trace(1, 6)]),
